@@ -72,7 +72,7 @@ ghost var gCancelled bool
 
 pred usableLimiter(l *librl.RateLimiter) := l != nil && l.policy != nil && l.policy.LimitForPeriod >= 1 && l.policy.LimitRefreshPeriod > 0 && l.policy.TimeoutDuration >= 0
 pred reqOf(ctx *context.Context) := ptr(ctxInput(ref(ctx)), "*httpprot.Request")
-pred ruleHits(spec *Spec, k int, ctx *context.Context) := urlrule.ruleMatches(ref(spec.URLs[k]), ref(reqOf(ctx).Request))
+pred ruleHits(spec *Spec, k int, ctx *context.Context) := urlrule.ruleMatches(addr(spec.URLs[k].URLRule), ref(reqOf(ctx).Request))
 pred respStatus429() := ptr(outResp, "*httpprot.Response").Response.StatusCode
 
 func (rl *RateLimiter) Handle(ctx *context.Context) (result string)
